@@ -75,15 +75,20 @@ CHECKS = {
          'via the onion structure of the recorded iterates; and CLOSURE: '
          'every allowed step in which the environment keeps its action '
          'leads to a winning valuation, hence every reachable state is '
-         'winning (induction over the behaviour). Only LIVENESS of infinite '
-         'behaviours is not proved (partial): it is searched on the real '
-         'implementation by explicit closed-loop fair-cycle analysis on '
-         'every run (which also re-checks refinement and non-blocking). The model is tied by comparing the complete truth '
+         'winning (induction over the behaviour); and LIVENESS: every '
+         'infinite closed-loop behaviour in which the environment keeps its '
+         'action satisfies "some persistence predicate from some point on, or '
+         'every recurrence predicate infinitely often" (step classification + '
+         'rank argument; uses Classical_Prop.classic). All clauses of C02 are '
+         'thus proved for the model; the real implementation is additionally '
+         'analysed in closed loop (reachability, blocking, fair cycles) on '
+         'every run. The model is tied by comparing the complete truth '
          'tables of action[impl]/init[impl] with the real construction.'),
    note=('Trusted: Coq kernel+vm_compute; hand model tied by sampled '
          'correspondence (tables are exhaustive per game); translator for '
-         'the generated parts; dd by meaning. Liveness only searched, not '
-         'proved. No axioms.')),
+         'the generated parts; dd by meaning. Axioms: C02_liveness depends on '
+         'Classical_Prop.classic (standard library); every other theorem is '
+         'closed under the global context.')),
  'C05': dict(
    design_ref='§6 C05',
    technique='Coq proofs on a hand model of make_rabin_transducer; two machine-checked refutation witnesses (known findings F3, F12); correspondence + closed-loop search',
